@@ -154,16 +154,16 @@ def run_query(A, q):
             r = A.initial_rejected_subword(pyword(q["w"]))
             return {"ok": None if r is None else list(r)}
         if k == "enum_fixed":
-            return {"ok": [[list(w), e] for w, e in A.enumerate_fixed_length_paths(q["n"], start_vertex=q.get("v"), with_states=True)]}
+            return {"ok": [[list(w), e] for w, e in U.capped(A.enumerate_fixed_length_paths(q["n"], start_vertex=q.get("v"), with_states=True))]}
         if k == "enum_words":
-            return {"ok": [[list(w), e] for w, e in A.enumerate_words(q["n"], start_vertex=q.get("v"), with_states=True)]}
+            return {"ok": [[list(w), e] for w, e in U.capped(A.enumerate_words(q["n"], start_vertex=q.get("v"), with_states=True))]}
         if k == "multiple":
             with U.time_limit(MULT_SECONDS):
                 return {"ok": U.views(A.automaton_multiple(q["k"]))}
         if k == "multiple_enum":
             with U.time_limit(4 * MULT_SECONDS):
                 B = A.automaton_multiple(q["k"])
-                return {"ok": [[[w] if w else [], e] for w, e in B.enumerate_words(q["n"], with_states=True)]}
+                return {"ok": [[[w] if w else [], e] for w, e in U.capped(B.enumerate_words(q["n"], with_states=True))]}
         if k == "rename":
             return {"ok": U.views(A.rename_generators(dict(map(tuple, q["m"])), inplace=False))}
         if k == "recurrent":
@@ -289,17 +289,17 @@ def check_lang(A, ref, wmax, nmax, bad, tag):
         tot = []
         for n in range(nmax + 1):
             want = collections.Counter(("".join(w), repr(e)) for w, e in ref.lang(s0, n))
-            got = collections.Counter((w, repr(e)) for w, e in A.enumerate_fixed_length_paths(n, start_vertex=sv, with_states=True))
+            got = collections.Counter((w, repr(e)) for w, e in U.capped(A.enumerate_fixed_length_paths(n, start_vertex=sv, with_states=True)))
             if got != want:
                 bad.append([tag, "enumerate_fixed_length_paths", sv, n, sorted(got.elements())[:6], sorted(want.elements())[:6]])
-            plain = collections.Counter(A.enumerate_fixed_length_paths(n, start_vertex=sv))
+            plain = collections.Counter(U.capped(A.enumerate_fixed_length_paths(n, start_vertex=sv)))
             if plain != collections.Counter(w for w, _ in want.elements()) or any(c > 1 for c in plain.values()):
                 bad.append([tag, "enumerate_fixed_length_paths(with_states=False)", sv, n])
             tot += sorted(want.elements())
-            gw = collections.Counter((w, repr(e)) for w, e in A.enumerate_words(n, start_vertex=sv, with_states=True))
+            gw = collections.Counter((w, repr(e)) for w, e in U.capped(A.enumerate_words(n, start_vertex=sv, with_states=True)))
             if gw != collections.Counter(tot):
                 bad.append([tag, "enumerate_words", sv, n])
-            gp = collections.Counter(A.enumerate_words(n, start_vertex=sv))
+            gp = collections.Counter(U.capped(A.enumerate_words(n, start_vertex=sv)))
             if gp != collections.Counter(w for w, _ in tot):
                 bad.append([tag, "enumerate_words(with_states=False)", sv, n])
         if len(bad) > n0:
@@ -406,7 +406,7 @@ def run_multiple_oracle(inp):
             with U.time_limit(4 * MULT_SECONDS):
                 B = A.even_automaton() if k == 2 and inp.get("even") else A.automaton_multiple(k)
                 nb = inp["nmax"] // max(k, 1)
-                got = collections.Counter(B.enumerate_words(nb))
+                got = collections.Counter(U.capped(B.enumerate_words(nb)))
         except U.CallTimeout:
             bad.append(["multiple-did-not-return", k, "reference loop needs <= 300 pops and <= 3^6 words"])
             break
@@ -463,7 +463,7 @@ def run_rename_oracle(inp):
             bad.append(["original-changed", m])
         if starts and starts[0] in ref.V:
             for n in range(inp["nmax"] + 1):
-                got = collections.Counter(B.enumerate_fixed_length_paths(n))
+                got = collections.Counter(U.capped(B.enumerate_fixed_length_paths(n)))
                 want_w = collections.Counter("".join(m[l] for l in w) for w, _ in ref.lang(starts[0], n))
                 if got != want_w:
                     bad.append(["rename-language", m, n])
@@ -550,7 +550,7 @@ def run_rlp_oracle(inp):
             if list(H.start_vertices) != [r0]:
                 bad.append(["rlp-start-vertex", root, list(H.start_vertices)])
             else:
-                hw = collections.Counter(H.enumerate_words(3))
+                hw = collections.Counter(U.capped(H.enumerate_words(3)))
                 want_w = collections.Counter("".join(w) for n in range(4) for w, _ in U.Ref(ref.V, kept).lang(r0, n))
                 if hw != want_w or not H.accepts(""):
                     bad.append(["rlp-language-from-root", root, ties])
